@@ -388,6 +388,26 @@ where T: Fx, C: ArrayCast<Array = [T; N]> + Premultiply<Scalar = T> + Compose + 
             let ep = ps.clone().blend_with(pd.clone(), eq);
             let epc: [T; N] = un(ep.color);
             cx.out.case(&format!("blendwith {} pre eq {} {} {} {} {} {} | {} | {} {}", ty, ce.1, ae.1, p1.1, p2.1, p3.1, p4.1, line_in(&psa, c.sa, &pda, c.da), hx(&epc), ep.alpha.hx()));
+            // oracle: the OpenGL blend equation (tables 17.1/17.2 of the GL specification, `lean/PaletteSpec/BlendEquations.lean`,
+            // theorem `C08.equations_eq_gl`), evaluated independently in f64.  All operands are in [0,1], the value is two products
+            // and one sum/difference (min/max: exact): error <= 2 eps of 1 in exact-product terms; the alarm level is the file's 16 eps.
+            {
+                let fac = |p: &str, cs: f64, cd: f64| -> f64 { match p { "1" => 1.0, "0" => 0.0, "sc" => cs, "1-sc" => 1.0 - cs, "dc" => cd, "1-dc" => 1.0 - cd,
+                    "sa" => sa64, "1-sa" => 1.0 - sa64, "da" => da64, _ => 1.0 - da64 } };
+                let gl = |e: &str, s: f64, sf: f64, d: f64, df: f64| -> f64 { match e { "add" => s * sf + d * df, "sub" => s * sf - d * df, "rsub" => d * df - s * sf, "min" => s.min(d), _ => s.max(d) } };
+                let mut ok = true; let mut worst = 0.0f64;
+                for k in 0..N {
+                    let (s, d) = (psa[k].to64(), pda[k].to64());
+                    let dev = (epc[k].to64() - gl(ce.1, s, fac(p1.1, s, d), d, fac(p2.1, s, d))).abs();
+                    worst = worst.max(dev); if !(dev <= t) { ok = false; }
+                }
+                // alpha: the `...Color` parameters read the alpha (GL "alpha blend factor" column)
+                let deva = (ep.alpha.to64() - gl(ae.1, sa64, fac(p3.1, sa64, da64), da64, fac(p4.1, sa64, da64))).abs();
+                worst = worst.max(deva); if !(deva <= t) { ok = false; }
+                cx.out.maxi(&format!("equations-vs-gl-dev/eps:{}", T::TAG), worst / T::eps());
+                cx.out.check(ok, &format!("equations=opengl:{}:{}", ty, T::TAG), || format!("eq {} {} {} {} {} {} s={:?}/{:?} d={:?}/{:?}: got {:?}/{:?}", ce.1, ae.1, p1.1, p2.1, p3.1, p4.1, psa, c.sa, pda, c.da, epc, ep.alpha));
+                cx.out.count(&format!("cls:equation:{}", ce.1));
+            }
             let ea = mk_a::<C, T, N>(c.s, c.sa).blend_with(mk_a(c.d, c.da), eq);
             let eac: [T; N] = un(ea.color);
             cx.out.case(&format!("blendwith {} alpha eq {} {} {} {} {} {} | {} | {} {}", ty, ce.1, ae.1, p1.1, p2.1, p3.1, p4.1, line_in(&c.s, c.sa, &c.d, c.da), hx(&eac), ea.alpha.hx()));
